@@ -101,7 +101,10 @@ func forEachFault(s *simrt.Sim, class string, in []byte, marks []mark, huge bool
 		start := s.Choose(len(ps))
 		for i := range ps {
 			p := ps[(start+i)%len(ps)]
-			for _, variant := range []string{"^01", "^80", "=ff", "=00", "+1"} {
+			variants := []string{"^01", "^80", "=ff", "=00", "+1"}
+			vstart := s.Choose(len(variants))
+			for vi := range variants {
+				variant := variants[(vstart+vi)%len(variants)]
 				b := append([]byte{}, in...)
 				old := b[p.off]
 				switch variant {
@@ -141,7 +144,9 @@ func forEachFault(s *simrt.Sim, class string, in []byte, marks []mark, huge bool
 				// one gigabyte-sized value per (rare) huge run
 				vals = append(vals, []uint64{1 << 31, 1<<32 - 1}[s.Choose(2)])
 			}
-			for _, u := range vals {
+			vstart := s.Choose(len(vals))
+			for vi := range vals {
+				u := vals[(vstart+vi)%len(vals)]
 				b := append([]byte{}, in...)
 				putLE(b, m.off, m.w, u)
 				s.Fault("inflate-" + m.kind)
@@ -227,7 +232,7 @@ func panicClass(v any) string {
 	case strings.Contains(msg, "unaddressable"):
 		return "reflect-set-unaddressable"
 	case strings.Contains(msg, "reflect.Set: value of type"), strings.Contains(msg, "reflect: call of reflect.Value.Set"):
-		return "reflect-set-wrong-type"
+		return "reflect-set"
 	case strings.Contains(msg, "reflect: call of"), strings.Contains(msg, "reflect.Value."):
 		return "reflect-wrong-kind"
 	case strings.Contains(msg, "index out of range"), strings.Contains(msg, "slice bounds out of range"):
@@ -298,8 +303,14 @@ func probe(s *simrt.Sim, st *probeStats, target, faultKind, desc string, in []by
 	}
 	st.calls++
 	if panicked {
-		s.Fail("decode-total", "panic:"+target+":"+faultKind+":"+panicClass(pv),
-			"%s panicked on faulted input (%s)\ninput (%d bytes): %x\npanic: %v", target, desc, len(in), clip(in), pv)
+		sig := "panic:" + target + ":" + faultKind
+		if target != "serix.MapDecode" && target != "serix.JSONDecode" {
+			// binary decoders: the panic class separates different defects of one entry point. For the JSON
+			// tree faults the fault kind already names the schema position whose conversion is unchecked.
+			sig += ":" + panicClass(pv)
+		}
+		s.Fail("decode-total", sig,
+			"%s panicked on faulted input (%s)\ninput (%d bytes): %s\npanic: %v", target, desc, len(in), show(in), pv)
 	}
 	if ok {
 		st.accepted++
@@ -308,20 +319,35 @@ func probe(s *simrt.Sim, st *probeStats, target, faultKind, desc string, in []by
 	}
 	if n > len(in) {
 		s.Fail("decode-total", "overread:"+target+":"+faultKind,
-			"%s reports %d consumed bytes for an input of %d bytes (%s)\ninput: %x", target, n, len(in), desc, clip(in))
+			"%s reports %d consumed bytes for an input of %d bytes (%s)\ninput: %s", target, n, len(in), desc, show(in))
 	}
 	if measure {
 		bound := uint64(64*len(in) + 64<<10)
 		if alloc > bound {
-			s.Fail("decode-bounded", "alloc:"+target+":"+faultKind,
-				"%s allocated %d bytes for an input of %d bytes (bound %d) (%s)\ninput: %x", target, alloc, len(in), bound, desc, clip(in))
+			// every fault that rewrites bytes can end up as a larger length prefix; the signature names
+			// that effect, whatever the fault kind that produced it (the detail has the exact fault)
+			effect := faultKind
+			switch faultKind {
+			case "structural-flip", "data-flip", "splice":
+				effect = "inflated-prefix"
+			}
+			s.Fail("decode-bounded", "alloc:"+target+":"+effect,
+				"%s allocated %d bytes for an input of %d bytes (bound %d) (%s)\ninput: %s", target, alloc, len(in), bound, desc, show(in))
 		}
 		if cpu > 3_000_000_000 {
 			s.Fail("decode-bounded", "iter:"+target+":"+faultKind,
-				"%s used %.1fs CPU for an input of %d bytes (%s)\ninput: %x", target, float64(cpu)/1e9, len(in), desc, clip(in))
+				"%s used %.1fs CPU for an input of %d bytes (%s)\ninput: %s", target, float64(cpu)/1e9, len(in), desc, show(in))
 		}
 	}
 	return n, ok
+}
+
+// show renders an input for a failure report: JSON documents as text, binary data as hex.
+func show(b []byte) string {
+	if len(b) > 0 && (b[0] == '{' || b[0] == '[') {
+		return string(clip(b))
+	}
+	return fmt.Sprintf("%x", clip(b))
 }
 
 func clip(b []byte) []byte {
